@@ -2,6 +2,7 @@ package main
 
 import (
 	"fmt"
+	"google.golang.org/protobuf/encoding/protowire"
 	"strings"
 
 	cosmos_proto "github.com/cosmos/cosmos-proto"
@@ -759,6 +760,54 @@ func nameSets() []*Set {
 // ---------------------------------------------------------------------------
 // options / services
 
+// optsDeclareSet: a file that declares custom options (extensions of several descriptor option messages, declared
+// interleaved) and uses them.
+func optsDeclareSet() *Set {
+	pkg := "vf.optd"
+	f := newFile("optd", "optd", pkg).dep("google/protobuf/descriptor.proto")
+	ext := func(name string, num int32, extendee string, k kindSpec, rep bool) *descriptorpb.FieldDescriptorProto {
+		e := field(name, num, k)
+		if rep {
+			e = repeated(e)
+		}
+		e.Extendee = proto.String(extendee)
+		return e
+	}
+	meta := newMsg("."+pkg, "Meta")
+	meta.add(field("k", 1, kindSpec{t: tString}))
+	f.msg(meta)
+	f.f.Extension = []*descriptorpb.FieldDescriptorProto{
+		ext("note_a", 50001, ".google.protobuf.FieldOptions", kindSpec{t: tString}, false),
+		ext("note_b", 50002, ".google.protobuf.MessageOptions", kindSpec{t: tInt32}, false),
+		ext("note_c", 50003, ".google.protobuf.FieldOptions", kindSpec{t: tMessage, name: "." + pkg + ".Meta"}, false),
+		ext("note_d", 50004, ".google.protobuf.EnumValueOptions", kindSpec{t: tBool}, false),
+		ext("note_e", 50005, ".google.protobuf.MessageOptions", kindSpec{t: tString}, true),
+		ext("note_f", 50006, ".google.protobuf.FileOptions", kindSpec{t: tSint64}, false),
+		ext("snake_case_note", 50007, ".google.protobuf.FieldOptions", kindSpec{t: tBytes}, false),
+	}
+	u := newMsg("."+pkg, "Uses")
+	fa := field("tagged", 1, kindSpec{t: tString})
+	fa.Options = &descriptorpb.FieldOptions{}
+	raw := protowire.AppendString(protowire.AppendTag(nil, 50001, protowire.BytesType), "hello")
+	raw = protowire.AppendBytes(protowire.AppendTag(raw, 50003, protowire.BytesType), protowire.AppendString(protowire.AppendTag(nil, 1, protowire.BytesType), "v"))
+	raw = protowire.AppendBytes(protowire.AppendTag(raw, 50007, protowire.BytesType), []byte{1, 2})
+	fa.Options.ProtoReflect().SetUnknown(raw)
+	u.add(fa)
+	u.add(field("plain", 2, kindSpec{t: tMessage, name: "." + pkg + ".Meta"}))
+	u.d.Options = &descriptorpb.MessageOptions{}
+	mraw := protowire.AppendVarint(protowire.AppendTag(nil, 50002, protowire.VarintType), 7)
+	mraw = protowire.AppendString(protowire.AppendTag(mraw, 50005, protowire.BytesType), "x")
+	mraw = protowire.AppendString(protowire.AppendTag(mraw, 50005, protowire.BytesType), "y")
+	u.d.Options.ProtoReflect().SetUnknown(mraw)
+	f.msg(u)
+	e := enum("Level", "LEVEL_ZERO", 0, "LEVEL_ONE", 1)
+	e.Value[1].Options = &descriptorpb.EnumValueOptions{}
+	e.Value[1].Options.ProtoReflect().SetUnknown(protowire.AppendVarint(protowire.AppendTag(nil, 50004, protowire.VarintType), 1))
+	f.enum(e)
+	f.f.Options.ProtoReflect().SetUnknown(protowire.AppendVarint(protowire.AppendTag(nil, 50006, protowire.VarintType), protowire.EncodeZigZag(-3)))
+	return simpleSet("opts-declare", f)
+}
+
 func optsSets() []*Set {
 	pkg := "vf.opts"
 	f := newFile("opts", "opts", pkg).dep("cosmos_proto/cosmos.proto", "google/protobuf/any.proto")
@@ -800,7 +849,7 @@ func optsSets() []*Set {
 			{Name: proto.String("Watch"), InputType: proto.String(req.full), OutputType: proto.String(res.full), ServerStreaming: proto.Bool(true)},
 		},
 	})
-	return []*Set{simpleSet("opts", f)}
+	return []*Set{simpleSet("opts", f), optsDeclareSet()}
 }
 
 // ---------------------------------------------------------------------------
